@@ -21,6 +21,9 @@ func (t *Translator) TransformRequest(ctx context.Context, r *http.Request) (*tr
 	var anthropicReq AnthropicRequest
 	decoder := json.NewDecoder(limitedBody)
 	decoder.DisallowUnknownFields()
+	// keep numbers inside free-form values (tool_use input, tool schemas) exactly as sent;
+	// float64 decoding silently rounds integers above 2^53 in tool arguments
+	decoder.UseNumber()
 
 	if err := decoder.Decode(&anthropicReq); err != nil {
 		return nil, fmt.Errorf("failed to parse Anthropic request: %w", err)
